@@ -1,117 +1,173 @@
 --------------------------- MODULE MC_CalendarReg ---------------------------
 (* Property C05, the registry: calendar(key, ...) as a state machine over a heap of calendar   *)
-(* objects and the module-level map  key -> object.  One action per public call:               *)
-(*   Register(k, H, w)          calendar(k, H, w, t0, t1)           new object, replaces        *)
-(*   Construct(k, H, w, a)      Calendar(k, H, w, t0, t1, a)        object outside the registry *)
+(* objects and the module-level map  key -> object.  One action per public call; every one of  *)
+(* the four parameters holidays / weekend / t0 / t1 is NOT GIVEN, GIVEN EMPTY (holidays = [],   *)
+(* weekend = []) or GIVEN (P = [hol, wk, lo, hi], <<>> = not given, <<v>> = given):             *)
+(*   Register(k, P)             calendar(k, <what P gives>)         new object, replaces        *)
+(*   Construct(k, P, a)         Calendar(k, <what P gives>, adj=a)  object outside the registry *)
 (*   RegisterObject(o)          calendar(obj)                       the object itself, replaces *)
-(*   RegisterObjectWith(o, H)   calendar(obj, holidays = H)         new object under obj's key  *)
+(*                              (obj loose, live, or an old handle displaced earlier)           *)
+(*   RegisterObjectWith(o, P)   calendar(obj, <what P gives>)       new object under obj's key, *)
+(*                                                                  derived from obj            *)
 (*   Fetch(k)                   calendar(k)                         on a registered key         *)
 (*   Query(k, q)                calendar(k).<op>(...)               builds the table when the   *)
 (*   QueryObj(o, q)             obj.<op>(...) on a loose object     code would                  *)
-(* `last` is a ghost: the holidays each key was last registered with (from the statement).     *)
+(* The menus change the HOLIDAYS (also to none, also to holidays on old-weekend days), the      *)
+(* WEEKEND (also to none) and the RANGE (first / last day a holiday or a weekend day) of a key; *)
+(* the queries name a per-call convention or use the calendar's own, on both paths of add.      *)
+(* `last` is a ghost: the configuration each key was last registered with, computed from the    *)
+(* statement (RegisteredCfg / DerivedCfg) - never from the heap.                                *)
 (* `hist` is kept by the generator configurations only (KeepHist): the events with the outcome  *)
 (* the specification expects, printed when a history is complete, for replay into the code.     *)
-EXTENDS Calendar, TLC, Json, FiniteSetsExt
-CONSTANTS Keys, NHol, NWk, Rich, MaxObj, Depth, KeepHist
+EXTENDS Calendar, TLC, Json, FiniteSetsExt, Randomization
+CONSTANTS Keys, NHol, NWk, NLo, NHi, ConAdjs, Rich, MaxObj, Depth, KeepHist,
+          Fan            \* generator: at most Fan randomly drawn parameter choices per step (0 = all)
 
 VARIABLES st, last, hist
 vars == <<st, last, hist>>
 
 \* ---- menus ------------------------------------------------------------------------------------
-E  == Ord(2000, 1, 31)                       \* a Monday, the month end;  E - 3 Fri, E - 2 Sat, E - 1 Sun
-Lo == E - 25
-Hi == E + 27
-HolMenu == <<{}, {E}, {E - 3, E, E + 1}, {E - 4, E - 3}>>          \* none / month end / run across weekend and month end / Thu-Fri
-WkMenu  == <<{5, 6}, {4, 5}, {}>>
-Hols == {HolMenu[i] : i \in 1..NHol}
-Wks  == {WkMenu[i] : i \in 1..NWk}
-Cfg(H, w, a) == [hol |-> H, wk |-> w, adj |-> a, lo |-> Lo, hi |-> Hi]
+E  == Ord(2000, 1, 31)        \* a Monday, the month end;  E - 4 Thu, E - 3 Fri, E - 2 Sat, E - 1 Sun, E + 1 Tue, E + 5 Sat
+\* none / a Saturday and the Tuesday / run across weekend and month end / Thu-Fri / month end
+HolMenu == <<{}, {E - 2, E + 1}, {E - 3, E, E + 1}, {E - 4, E - 3}, {E}>>
+WkMenu  == <<{6}, {}, {4, 5}, {5, 6}>>
+\* wide; narrow: begins on a Thursday (a holiday of menu 4) / ends on a Tuesday (a holiday of menus 2, 3); on Saturdays
+LoMenu  == <<E - 25, E - 4, E - 2>>
+HiMenu  == <<E + 27, E + 1, E + 5>>
+Opt(menu, n) == {<<>>} \cup {<<menu[i]>> : i \in 1..n}
+AllParams == {[hol |-> h, wk |-> w, lo |-> l, hi |-> u] : h \in Opt(HolMenu, NHol), w \in Opt(WkMenu, NWk),
+                                                          l \in Opt(LoMenu, NLo), u \in Opt(HiMenu, NHi)}
+Params == AllParams \ {NoParams}
 Q(op, t, n, u, a) == [op |-> op, t |-> t, n |-> n, u |-> u, a |-> a]
-\* both paths of add from a Friday and a Saturday, and the table-only queries
-QSmall == {Q("add", E - 2, 1, 0, ""), Q("add", E - 2, 2, 0, ""), Q("add", E - 3, -2, 0, ""), Q("drange", E - 4, 0, E + 2, "")}
+\* both paths of add from a Friday and a Saturday, with the calendar's own and with a passed convention; the table-only
+\* queries; the days whose status the menus change (the Saturday, the last day of the narrow range); a single-day range
+QSmall == {Q("add", E - 2, 1, 0, ""), Q("add", E - 2, 2, 0, ""), Q("add", E - 3, -2, 0, ""), Q("drange", E - 4, 0, E + 2, ""),
+           Q("add", E - 2, 1, 0, "p"), Q("add", E - 2, 2, 0, "p"), Q("is_bday", E - 2, 0, 0, ""), Q("is_bday", E + 1, 0, 0, ""),
+           Q("adjust", E + 1, 0, 0, "p"), Q("drange", E - 2, 0, E - 2, ""), Q("drange", E - 3, 0, E + 1, "")}
 QRich  == QSmall \cup {Q("add", E - 2, -1, 0, ""), Q("add", E - 3, 1, 0, ""), Q("add", E - 3, 2, 0, ""), Q("add", E - 2, -2, 0, ""),
-                       Q("add", E - 2, 0, 0, ""), Q("add", E - 2, 2, 0, "f"), Q("add", E - 2, 1, 0, "p"),
-                       Q("is_bday", E, 0, 0, ""), Q("is_bday", E - 3, 0, 0, ""), Q("adjust", E - 1, 0, 0, ""), Q("adjust", E - 1, 0, 0, "f"),
-                       Q("bdays", E - 4, 0, E + 2, ""), Q("bdays_add", E - 2, 3, 0, ""), Q("add_twice", E - 2, 1, 0, ""),
-                       Q("add_inv", E - 5, 4, 0, ""), Q("dt_bump", E - 1, -3, 0, ""), Q("clock_diff", E - 5, 0, E + 2, "")}
+                       Q("add", E - 2, 0, 0, ""), Q("add", E - 2, 2, 0, "f"), Q("add", E - 2, -2, 0, "f"), Q("add", E - 1, -3, 0, "m"),
+                       Q("add", E - 2, -1, 0, "f"), Q("add", E, 2, 0, "p"), Q("add", E + 1, -2, 0, "p"), Q("add", E + 1, -1, 0, "p"),
+                       Q("is_bday", E, 0, 0, ""), Q("is_bday", E - 3, 0, 0, ""), Q("is_bday", E - 4, 0, 0, ""), Q("is_bday", E - 1, 0, 0, ""),
+                       Q("is_bday", E + 5, 0, 0, ""), Q("is_holiday", E - 2, 0, 0, ""),
+                       Q("adjust", E - 1, 0, 0, ""), Q("adjust", E - 1, 0, 0, "f"), Q("adjust", E - 2, 0, 0, "p"), Q("adjust", E - 4, 0, 0, "f"),
+                       Q("adjust", E - 2, 0, 0, "f"), Q("adjust", E + 5, 0, 0, "p"), Q("adjust", E, 0, 0, "m"),
+                       Q("bdays", E - 4, 0, E + 2, ""), Q("bdays", E - 2, 0, E + 1, "p"), Q("bdays", E - 3, 0, E - 1, "f"),
+                       Q("bdays_add", E - 2, 3, 0, ""), Q("bdays_add", E - 2, 2, 0, "p"), Q("add_twice", E - 2, 1, 0, ""),
+                       Q("add_twice", E - 2, 1, 0, "p"), Q("add_split", E - 2, 3, 0, "p"), Q("add_split", E - 1, -2, 0, "f"),
+                       Q("add_inv", E - 5, 4, 0, ""), Q("dt_bump", E - 1, -3, 0, ""), Q("dt_bump", E - 2, 2, 0, "p"),
+                       Q("dt_bump", E - 2, 1, 0, "p"), Q("bump0", E - 2, 1, 0, "p"), Q("clock_diff", E - 5, 0, E + 2, ""),
+                       Q("drange", E - 1, 0, E - 2, ""), Q("drange", E + 1, 0, E - 3, ""), Q("drange", E + 1, 0, E + 1, ""),
+                       Q("drange", E - 2, 0, E + 5, ""), Q("drange", E - 4, 0, E - 4, "")}
 QM == IF Rich THEN QRich ELSE QSmall
 
 \* ---- helpers ----------------------------------------------------------------------------------
 NObj == Len(st.heap)
 Objs == 1..NObj
-AdjKnown(ob) == ob.cfg.adj # "?"
-\* a query the statement pins down on this object
-Askable(ob, q) == /\ (q.a = "" /\ q.op \notin {"is_bday", "is_holiday"}) => AdjKnown(ob)
-                  /\ InDomain(ob.cfg, q) /\ Pinned(ob.cfg, q)
+\* a query the statement pins down on this object (calendars with the default range of 400 years are asked
+\* loop-path questions only: their table is not written down - an economy of the generator, not of the law)
+AskableCfg(c, q) == /\ (q.a = "" /\ q.op \notin {"is_bday", "is_holiday"}) => c.adj # "?"
+                    /\ Populates(q) => Bounded(c)
+                    /\ InDomain(c, q) /\ Pinned(c, q)
+Askable(ob, q) == AskableCfg(ob.cfg, q)
 HolSeq(H) == SetToSortSeq(H, <)
+PJson(P) == [hol |-> IF Given(P.hol) THEN <<HolSeq(P.hol[1])>> ELSE <<>>, wk |-> IF Given(P.wk) THEN <<HolSeq(P.wk[1])>> ELSE <<>>,
+             lo |-> P.lo, hi |-> P.hi]
 Log(ev) == hist' = IF KeepHist THEN Append(hist, ev) ELSE hist
 Room == (KeepHist => Len(hist) < Depth)
 Want(ob, q) == SetToSeq(AcceptedAnswers(ob.cfg, q))
 
 Init == /\ st = [heap |-> <<>>, reg |-> [k \in Keys |-> 0]]
-        /\ last = [k \in Keys |-> <<"none">>]
+        /\ last = [k \in Keys |-> <<>>]
         /\ hist = <<>>
 
-Register(k, H, w) ==
-    /\ Room /\ NObj < MaxObj
-    /\ st' = DoRegister(st, k, Cfg(H, w, "m"))
-    /\ last' = [last EXCEPT ![k] = <<"hol", H>>]
-    /\ Log([op |-> "Register", k |-> k, hol |-> HolSeq(H), wk |-> HolSeq(w), want |-> HolSeq(H)])
-Construct(k, H, w, a) ==
-    /\ Room /\ NObj < MaxObj
-    /\ st' = DoConstruct(st, k, Cfg(H, w, a))
+Register(k, P) ==
+    /\ Room /\ NObj < MaxObj /\ AnyGiven(P) /\ WellCfg(RegisteredCfg(P))
+    /\ st' = DoRegisterKey(st, k, P)
+    /\ last' = [last EXCEPT ![k] = <<RegisteredCfg(P)>>]
+    /\ Log([op |-> "Register", k |-> k, p |-> PJson(P), want |-> HolSeq(RegisteredCfg(P).hol)])
+Construct(k, P, a) ==
+    /\ Room /\ NObj < MaxObj /\ WellCfg(RegisteredCfg(P))
+    /\ st' = DoConstruct(st, k, [RegisteredCfg(P) EXCEPT !.adj = a])
     /\ UNCHANGED last
-    /\ Log([op |-> "Construct", k |-> k, hol |-> HolSeq(H), wk |-> HolSeq(w), adj |-> a, want |-> HolSeq(H)])
+    /\ Log([op |-> "Construct", k |-> k, p |-> PJson(P), adj |-> a, want |-> HolSeq(RegisteredCfg(P).hol)])
 RegisterObject(o) ==
-    /\ Room /\ st.heap[o].status \in {"loose", "live"}
+    /\ Room
     /\ st' = DoRegisterObject(st, o)
-    /\ last' = [last EXCEPT ![st.heap[o].key] = <<"hol", st.heap[o].cfg.hol>>]
-    /\ Log([op |-> "RegisterObject", o |-> o, want |-> HolSeq(st.heap[o].cfg.hol)])
+    /\ last' = [last EXCEPT ![st.heap[o].key] = <<st.heap[o].cfg>>]
+    /\ Log([op |-> "RegisterObject", o |-> o, was |-> st.heap[o].status, want |-> HolSeq(st.heap[o].cfg.hol)])
 \* the convention of the new object is not pinned ("?"): only queries that name one are asked of it
-RegisterObjectWith(o, H) ==
-    /\ Room /\ NObj < MaxObj /\ st.heap[o].status \in {"loose", "live"}
-    /\ LET s2 == DoRegisterObjectWith(st, o, H) IN st' = [s2 EXCEPT !.heap[Len(s2.heap)].cfg.adj = "?"]
-    /\ last' = [last EXCEPT ![st.heap[o].key] = <<"hol", H>>]
-    /\ Log([op |-> "RegisterObjectWith", o |-> o, hol |-> HolSeq(H), want |-> HolSeq(H)])
+RegisterObjectWith(o, P) ==
+    /\ Room /\ NObj < MaxObj /\ AnyGiven(P) /\ WellCfg(DerivedCfg(st.heap[o].cfg, P))
+    /\ st' = DoRegisterObjectWith(st, o, P)
+    /\ last' = [last EXCEPT ![st.heap[o].key] = <<DerivedCfg(st.heap[o].cfg, P)>>]
+    /\ Log([op |-> "RegisterObjectWith", o |-> o, p |-> PJson(P), want |-> HolSeq(DerivedCfg(st.heap[o].cfg, P).hol)])
 Fetch(k) ==
     /\ Room /\ st.reg[k] # 0
     /\ UNCHANGED <<st, last>>
-    /\ Log([op |-> "Fetch", k |-> k, want |-> View(st, k).hol])
+    /\ Log([op |-> "Fetch", k |-> k, want |-> HolSeq(last[k][1].hol)])
 Query(k, q) ==
-    /\ Room /\ st.reg[k] # 0 /\ Askable(st.heap[st.reg[k]], q)
+    /\ Room /\ st.reg[k] # 0 /\ AskableCfg(last[k][1], q)          \* (asked and answered from the ghost: the law)
     /\ st' = DoQuery(st, st.reg[k], q)
     /\ UNCHANGED last
-    /\ Log([op |-> "Query", k |-> k, q |-> q, want |-> Want(st.heap[st.reg[k]], q)])
+    /\ Log([op |-> "Query", k |-> k, q |-> q, want |-> Want([cfg |-> last[k][1]], q)])
 QueryObj(o, q) ==
     /\ Room /\ st.heap[o].status = "loose" /\ Askable(st.heap[o], q)
     /\ st' = DoQuery(st, o, q)
     /\ UNCHANGED last
     /\ Log([op |-> "QueryObj", o |-> o, q |-> q, want |-> Want(st.heap[o], q)])
 
-Next == \/ \E k \in Keys, H \in Hols, w \in Wks : Register(k, H, w)
-        \/ \E k \in Keys, H \in Hols, w \in Wks, a \in {"f", "p", "m"} : Construct(k, H, w, a)
+Next == \/ \E k \in Keys, P \in Params : Register(k, P)
+        \/ \E k \in Keys, P \in AllParams, a \in ConAdjs : Construct(k, P, a)
         \/ \E o \in Objs : RegisterObject(o)
-        \/ \E o \in Objs, H \in Hols : RegisterObjectWith(o, H)
+        \/ \E o \in Objs, P \in Params : RegisterObjectWith(o, P)
         \/ \E k \in Keys : Fetch(k)
         \/ \E k \in Keys, q \in QM : Query(k, q)
         \/ \E o \in Objs, q \in QM : QueryObj(o, q)
-\* generator: print the complete histories
-NextGen == Next /\ (Len(hist') = Depth => PrintT(ToJson([hist |-> hist'])))
+
+\* ---- generator (simulation) --------------------------------------------------------------------
+\* A history of Depth randomly drawn calls (a few randomly drawn argument choices of every kind of call per step -
+\* Fan for the registrations, 4 Fan for the queries - one of them taken), printed when complete together with `finals`: every question the statement pins down
+\* about the state reached - each registered key fetched, each askable query of the menu by key and on each loose
+\* object.  Queries and fetches leave `last` and every configuration unchanged (UNCHANGED last; DoQuery only builds
+\* tables), so the expected answers of the finals hold in whatever order they are asked after the history.
+Pick(n, S) == IF Fan = 0 \/ Cardinality(S) <= n THEN S ELSE RandomSubset(n, S)
+FinalsOf(s, l) ==
+    LET ff == {[op |-> "Fetch", k |-> k, want |-> HolSeq(l[k][1].hol)] : k \in {k \in Keys : s.reg[k] # 0}}
+        fq == {[op |-> "Query", k |-> x[1], q |-> x[2], want |-> Want([cfg |-> l[x[1]][1]], x[2])] :
+                  x \in {y \in Keys \X QM : s.reg[y[1]] # 0 /\ AskableCfg(l[y[1]][1], y[2])}}
+        fo == {[op |-> "QueryObj", o |-> x[1], q |-> x[2], want |-> Want(s.heap[x[1]], x[2])] :
+                  x \in {y \in (1..Len(s.heap)) \X QM : s.heap[y[1]].status = "loose" /\ Askable(s.heap[y[1]], y[2])}}
+    IN  [fetch |-> SetToSeq(ff), query |-> SetToSeq(fq), queryobj |-> SetToSeq(fo)]
+Complete == KeepHist /\ Len(hist) = Depth
+Finish  == Complete /\ PrintT(ToJson([hist |-> hist, finals |-> FinalsOf(st, last)])) /\ UNCHANGED vars
+NextGen == \/ \E x \in Pick(Fan, Keys \X Params) : Register(x[1], x[2])
+           \/ \E x \in Pick(1, Keys \X AllParams \X ConAdjs) : Construct(x[1], x[2], x[3])
+           \/ \E o \in Pick(2, Objs) : RegisterObject(o)
+           \/ \E x \in Pick(3 * Fan, Objs \X Params) : RegisterObjectWith(x[1], x[2])
+           \/ \E k \in Pick(1, Keys) : Fetch(k)
+           \/ \E x \in Pick(4 * Fan, Keys \X QM) : Query(x[1], x[2])
+           \/ \E x \in Pick(2 * Fan, Objs \X QM) : QueryObj(x[1], x[2])
+           \/ Finish
 
 \* ---- invariants -------------------------------------------------------------------------------
 Live(k) == {o \in Objs : st.heap[o].key = k /\ st.heap[o].status = "live"}
 WellFormed == \A k \in Keys : IF st.reg[k] = 0 THEN Live(k) = {} ELSE Live(k) = {st.reg[k]}
 \* a calendar fetched by key reflects the holidays it was last registered with
-FetchReflectsLast == \A k \in Keys : IF st.reg[k] = 0 THEN last[k] = <<"none">>
-                                     ELSE last[k] = <<"hol", st.heap[st.reg[k]].cfg.hol>>
-\* a populated table was built from the holidays of the object that holds it: it never outlives
-\* a re-registration (every registration with holidays makes a new, unpopulated object)
+FetchReflectsLast == \A k \in Keys : IF st.reg[k] = 0 THEN last[k] = <<>>
+                                     ELSE last[k] # <<>> /\ st.heap[st.reg[k]].cfg.hol = last[k][1].hol
+\* ... and the weekend and the range it was last registered with (the configurations the statement quantifies over)
+FetchReflectsConfig == \A k \in Keys : st.reg[k] # 0 =>
+                          LET c == st.heap[st.reg[k]].cfg  l == last[k][1] IN c.wk = l.wk /\ c.lo = l.lo /\ c.hi = l.hi /\ c.adj = l.adj
+\* every object of the heap is a configuration the statement speaks about
+WellConfigured == \A o \in Objs : WellCfg(st.heap[o].cfg)
+\* a populated table was built from the configuration of the object that holds it: it never outlives
+\* a re-registration (every registration that gives something makes a new, unpopulated object)
 TableFresh == \A o \in Objs : LET ob == st.heap[o] IN
                  IF ob.pop THEN ob.tab = BTable(ob.cfg) ELSE ob.tab = <<>>
 \* with the table each object holds (or would build now), every askable query - loop path,
-\* table path, interleaved in any order on the same object - is answered as the law level says
+\* table path, own or passed convention, interleaved in any order on the same object - is answered as the law level says
 PathsAgree == \A o \in Objs : LET ob == st.heap[o] IN ob.status # "dead" =>
-                 \A q \in QM : Askable(ob, q) => MechAnswer(ob.cfg, TabFor(ob), q) \in AcceptedAnswers(ob.cfg, q)
+                 \A q \in QM : Askable(ob, q) => MechAnswer(ob.cfg, IF Populates(q) THEN TabFor(ob) ELSE <<>>, q) \in AcceptedAnswers(ob.cfg, q)
 \* a step changes the entry of at most one key
 OneKeyPerStep == [][Cardinality({k \in Keys : st'.reg[k] # st.reg[k]}) <= 1]_vars
 =============================================================================
